@@ -928,20 +928,10 @@ theorem enterClass_ok {proj : Project} {rank : List Nat} (wf : WFacts proj rank)
       (List.getElem?_eq_some_iff.1 ho).1
     have : Names.expandName (envOf s) ctx b = some p := hp
     rw [this] at hx; cases hx
-  have hcrash : (bs.map (fun b => Names.expandName (envOf s) ctx b)).any (baseCrash (envOf s)) = false := by
-    rw [Bool.eq_false_iff]
-    intro h
-    simp only [List.any_eq_true, List.mem_map] at h
-    obtain ⟨x, ⟨b, _, rfl⟩, hx⟩ := h
-    cases hxe : Names.expandName (envOf s) ctx b with
-    | none => simp [hxe, baseCrash] at hx
-    | some p =>
-      simp only [hxe, baseCrash, beq_iff_eq] at hx
-      exact (findObject_nocrash wf hI p).2 hx
   obtain ⟨ci, he, hci⟩ : ∃ ci : List (Nat × ClsInfo), enterClass ctx n bs s = { addObj s .cls n ctx with cinfo := ci } ∧
       ∀ e ∈ ci, e ∈ (addObj s .cls n ctx).cinfo ∨ ∀ b, some b ∈ e.2.objs → isClassObj s.reg b = true := by
     unfold enterClass
-    simp only [hexp, hcrash, Bool.or_false, markBad_false]
+    simp only [hexp, markBad_false]
     refine ⟨_, rfl, ?_⟩
     intro e hm
     rcases List.mem_append.1 hm with hm | hm
@@ -955,13 +945,13 @@ theorem enterClass_ok {proj : Project} {rank : List Nat} (wf : WFacts proj rank)
       | none => simp [hxe] at hx
       | some p =>
         simp only [hxe] at hx
-        cases hof : Names.findObject (envOf s) p with
-        | obj o =>
+        cases hof : Names.objFor (envOf s) p with
+        | none => simp [hof] at hx
+        | some o =>
           simp only [hof] at hx
           by_cases hcl : isClassObj s.reg o = true
           · simp only [hcl, if_true, Option.some.injEq] at hx; subst hx; exact hcl
           · simp [hcl] at hx
-        | _ => simp [hof] at hx
   have hcb2 : CBase { addObj s .cls n ctx with cinfo := ci } := by
     intro e hm b hbm
     rcases hci e hm with hold | hnewc
